@@ -9,7 +9,7 @@ import sys
 ROOT = os.path.join(os.path.dirname(os.path.dirname(os.path.abspath(__file__))), "coq", "theories")
 
 
-STANDALONE = {"AckProofs", "LocksProofs", "LedgerProofs", "LedgerUpdProofs", "PoolProofs", "WindowProofs", "MicroProofs", "MicroStats", "MicroBound", "MicroBal", "MicroAll", "PrecondProofs"}
+STANDALONE = {"AckProofs", "LocksProofs", "LedgerProofs", "LedgerUpdProofs", "PoolProofs", "WindowProofs", "MicroProofs", "MicroStats", "MicroBound", "MicroBal", "MicroAll", "MicroProv", "PrecondProofs"}
 
 
 def statements(modname):
@@ -118,8 +118,8 @@ spec("C16_micro", "Key and weight balances at every state of every micro schedul
 spec("C15_micro", "Hit accounting with reads split between the store lookup and the access record", [M, "MicroStats"], [
     ("MicroStats", "micro_hits_accounted_run", None), ("MicroStats", "read_in_flight_witness", None), (M, "mcall_atomic", None),
 ])
-spec("C02_micro", "Reads split at their schedule points", [M, "MicroBal", "MicroAll"], [
-    (M, "mcall_atomic", None), ("MicroAll", "micro_hidden_run", "deleted_value_never_returned_micro"),
+spec("C02_micro", "Reads split at their schedule points", [M, "MicroBal", "MicroAll", "MicroProv"], [
+    ("MicroProv", "micro_store_value_provenance", None), (M, "mcall_atomic", None), ("MicroAll", "micro_hidden_run", "deleted_value_never_returned_micro"),
 ])
 spec("C11_micro", "Writes split between building the command and sending it", [M], [
     (M, "mcall_atomic", None), (M, "mdelete_atomic", None), (M, "mput_atomic", None), (M, "micro_schedule_refines", None),
